@@ -55,7 +55,10 @@ contract(
     returns="tuple[arr[real],arr[real],arr[real]]",
     requires={"same-length": "len(theta) == len(phi)"},
     ensures={"unit-length": "all(result[0][k] * result[0][k] + result[1][k] * result[1][k] + result[2][k] * result[2][k] == 1 for k in range(0, len(theta)))",
-             "one-vector-per-point": "len(result[0]) == len(theta) and len(result[1]) == len(theta) and len(result[2]) == len(theta)"},
+             "one-vector-per-point": "len(result[0]) == len(theta) and len(result[1]) == len(theta) and len(result[2]) == len(theta)",
+             "components: (cos theta cos phi, sin theta cos phi, sin phi)":
+                 "all(result[0][k] == ufn('cos', theta[k]) * ufn('cos', phi[k]) and result[1][k] == ufn('sin', theta[k]) * ufn('cos', phi[k])"
+                 " and result[2][k] == ufn('sin', phi[k]) for k in range(0, len(theta)))"},
     props=["C09", "C08"], runtime=False,
 )
 
@@ -154,7 +157,13 @@ for _u in ("deg", "rad"):
         globals=dict(_sdsspar=_SDSSPAR),
         requires={"same-length": "len(ra) == len(dec)"},
         ensures={"unit-length": "all(result[0][k] * result[0][k] + result[1][k] * result[1][k] + result[2][k] * result[2][k] == 1 for k in range(0, len(ra)))",
-                 "inputs-untouched": "arr_eq(ra, old(ra)) and arr_eq(dec, old(dec))"},
+                 "inputs-untouched": "arr_eq(ra, old(ra)) and arr_eq(dec, old(dec))",
+                 "direction: the unit vector of (longitude, latitude) in the stated unit, longitude counted from the survey node when stomp is set":
+                     "all(result[2][k] == ufn('sin', %(phi)s) and result[0][k] == ufn('cos', %(th)s) * ufn('cos', %(phi)s)"
+                     " and result[1][k] == ufn('sin', %(th)s) * ufn('cos', %(phi)s) for k in range(0, len(ra)))" % dict(
+                         phi=("dec[k] * 3.141592653589793 / 180" if _u == "deg" else "dec[k]"),
+                         th=("(ra[k] * 3.141592653589793 / 180 - (_sdsspar['node'] if stomp else 0))" if _u == "deg"
+                             else "(ra[k] - (_sdsspar['node'] if stomp else 0))"))},
         materialize=True,
         props=["C09", "C08", "C15"], runtime=False,
     )
